@@ -47,6 +47,10 @@ func isAdjacency(c *Check, v ssa.Value, depth int) bool {
 				return true
 			}
 		}
+		// the declared dependency labels of a node are the same relation, one lookup away
+		if x.Call.IsInvoke() && x.Call.Method.Name() == "GetDependencies" && engine.TypeKey(x.Call.Value.Type()) == "model.BuildNode" {
+			return true
+		}
 		if b, ok := x.Call.Value.(*ssa.Builtin); ok && b.Name() == "append" {
 			for _, a := range x.Call.Args {
 				if isAdjacency(c, a, depth+1) {
